@@ -113,6 +113,11 @@ class _Quadrature(torch.autograd.Function):
             params = all_params[:nparams]
             objparams = all_params[nparams:]
 
+            # only the limits given as tensors can receive a gradient
+            # (this must be checked before the conversion below)
+            ctx.xltensor = isinstance(xl, torch.Tensor)
+            ctx.xutensor = isinstance(xu, torch.Tensor)
+
             # convert to tensor
             xl = torch.as_tensor(xl, dtype=dtype, device=device)
             xu = torch.as_tensor(xu, dtype=dtype, device=device)
@@ -144,8 +149,6 @@ class _Quadrature(torch.autograd.Function):
             # save the parameters for backward
             ctx.param_sep = TensorNonTensorSeparator(all_params)
             tensor_params = ctx.param_sep.get_tensor_params()
-            ctx.xltensor = isinstance(xl, torch.Tensor)
-            ctx.xutensor = isinstance(xu, torch.Tensor)
             xlxu_tensor = ([xl] if ctx.xltensor else []) + \
                           ([xu] if ctx.xutensor else [])
             ctx.xlxu_nontensor = ([xl] if not ctx.xltensor else []) + \
